@@ -347,6 +347,11 @@ class ClientWorld(object):
             en = None
         if en and en[0][0] != label:
             self.deviations_taken += 1
+            if label == "timer" and self.clock.pending():
+                # a timer overtaking pending I/O: when it is a request timeout the broker was, in effect, too slow
+                name = getattr(self.clock.pending()[0].func, "__qualname__", "")
+                if "timeout" in name.lower():
+                    self.early_timeouts = getattr(self, "early_timeouts", 0) + 1
         if label.startswith("app") or label == "timer":
             self._spin_mark = len(self.net.journal)  # only an uninterrupted burst of reconnects counts as spinning
         parts = label.split(":")
